@@ -117,8 +117,8 @@ PROP = {'gen': [],
                'under every schedule, no panic (bar usize overflow of a caller-supplied consume amount), representation invariant, '
                'delivered ++ pending = written minus discarded chunks in order (erasure relation), len() = bytes readable to exhaustion, '
                'discarded chunks are whole frames none of whose bytes is ever delivered (frames delimited by flush/poll/drop in general, by flush/poll '
-               'only for programs that drop right after a flush or poll, e.g. the render loop); progress under accepting rounds; the '
-               'specification side accepts every model history. Models tied to the code by '
+               'only for programs that drop right after a flush or poll, e.g. the render loop); progress under accepting rounds; both '
+               'specification sides (queue: FifoSpec, terminal object: FrameSpec) provably accept every run of the model. Models tied to the code by '
                'histories on the real IOQueue (incl. 64 KiB..1 MiB chunks) and by pty sessions of the real SystemTerminal.',
  'level_note': 'Trusted: Coq kernel + vm_compute; hand-written models IO/IOQueue.v, IO/TermIO.v validated by the correspondence runs; '
                'IO/FifoSpec.v / match_frames as the reading of the property text; kernel behaviour universally quantified, sampled by '
